@@ -365,6 +365,44 @@ def r6_reflection_guard(cx):
     cx.check("half-immutable", not w, site_of(w[0][0], w[0][1]) if w else None, "CryptoCore.nonce_half is never reassigned after construction")
 
 
+def r7_handshake_payload_sealed(cx):
+    """The node information travels inside pong / peng, sealed by `InitState::encrypt_payload` with the handshake's
+    own crypto core - which exists only between the negotiation in `handle_init` and the hand-over of the core to
+    the connection (`take_core`); `encrypt_payload` silently leaves the payload in clear when there is no core.
+    Rule: every `InitState::send_message` call for a payload-carrying stage (anything but the constant STAGE_PING)
+    is dominated by the `select_algorithm` call of the same activation, i.e. a pong / peng is *built* only in the
+    call that has just negotiated; later repetitions replay the stored bytes (`repeat_last_message`)."""
+    prog = cx.prog
+    sm = A.method(prog, "InitState", "send_message")
+    sel = A.method(prog, "InitState", "select_algorithm")
+    ping = prog.const_value("STAGE_PING")
+    sites = []
+    for (c, bb, kind) in prog.cg.callers.get(sm.did, []):
+        sites.append((prog.by_did[c], bb))
+    cx.floor("send_message-sites", len(sites), 3, "call sites of InitState::send_message")
+    n = 0
+    for (b, bi) in sorted(sites, key=lambda x: (x[0].path, x[1])):
+        cx.touch(b)
+        t = b.blocks[bi]["term"]
+        stage = op_const(t["args"][1]) if len(t["args"]) > 1 else None
+        if stage is None and len(t["args"]) > 1:
+            o = origin(b, t["args"][1])
+            if o[0] == "const":
+                stage = op_const(o[1])
+        if stage == ping:
+            continue
+        n += 1
+        sels = [ci for ci, ct in b.calls() if any(d == sel.did for _k, d in prog.cg.resolve(b, ct))]
+        ok = any(b.cfg.dominates(ci, bi) for ci in sels)
+        cx.check("payload-built-right-after-negotiation:%s" % b.name, ok, site_of(b, bi),
+                 "a handshake message carrying the (sealed) node information is built only in the activation that has just negotiated the cipher (stage %s)" % stage)
+    cx.floor("payload-carrying-sites", n, 2, "send_message sites for pong / peng")
+    # encrypt_payload is reached from send_message only
+    ep = A.method(prog, "InitState", "encrypt_payload")
+    callers = sorted(set(prog.by_did[c].path for (c, bb, k) in prog.cg.callers.get(ep.did, [])))
+    cx.check("encrypt_payload-callers", callers == [sm.path], None, "encrypt_payload is called by send_message only (found %s)" % callers)
+
+
 RULES = [
     ("C02.R1", r1_every_wire_write_sealed, "every Socket::send is sealed (send_message/encrypt chain), handshake, or the statsd exception"),
     ("C02.R2", r2_plain_only_by_consent, "unencrypted only when take_core() is None; Ok(None) only when both allow_unencrypted flags"),
@@ -372,6 +410,7 @@ RULES = [
     ("C02.R4", r4_interface_write_only_data, "Device::write only in handle_payload_from, called only under Message(DATA)"),
     ("C02.R5", r5_open_checked_before_state, "open_in_place result checked before seen counter store; failure returns Err"),
     ("C02.R6", r6_reflection_guard, "seal/open marker tables complementary; one open attempt per datagram"),
+    ("C02.R7", r7_handshake_payload_sealed, "pong / peng (carrying the node information) are built only right after the negotiation, while the handshake's core exists"),
 ]
 
 LEVEL_TEXT = ("Static shape clauses on MIR: who may call Socket::send / Device::write and under which dominating success edges "
